@@ -130,15 +130,22 @@ def map_failure(gen, d):
     for s in spans:
         if s.get('is_primary'):
             primary_line = s.get('line_start')
-    # any span inside a named clause identifies the obligation
-    for s in spans:
+    # the obligation: the clause under the primary span, else under a span labelled "failed ..."
+    def clause_of(s):
         for ln in range(s.get('line_start', 0), s.get('line_end', 0) + 1):
             c = gen.clause_at(ln)
             if c is not None:
-                clause = c
-                break
-        if clause:
-            break
+                return c
+        return None
+    for s in spans:
+        if s.get('is_primary'):
+            clause = clause_of(s)
+    if clause is None:
+        for s in spans:
+            if not s.get('is_primary') and 'failed' in (s.get('label') or ''):
+                clause = clause_of(s)
+                if clause:
+                    break
     # the function in which the failure is reported: the span that is NOT the clause if possible
     fn = None
     for s in spans:
